@@ -75,15 +75,16 @@ M = [
  # ---- C16 robustness
  ("C16-undef-index", "C16", "src/directive.rs", "                    if let Some(Operand::E(Expr::Ident(name))) = values.first() {\n                        context.push_to_last((point, Item::Undef(name.clone())))", "                    if let Operand::E(Expr::Ident(name)) = &values[0] {\n                        context.push_to_last((point, Item::Undef(name.clone())))", ".undef without operand panics again"),
  ("C16-includepath-unwrap", "C16", "src/directive.rs", "let mut current_path = current_path\n                                .parent()\n                                .map(|p| p.to_path_buf())\n                                .unwrap_or_default();", "let mut current_path = current_path.parent().unwrap().to_path_buf();", "relative .includepath in a macro body panics again"),
- ("C16-line-limit-huge", "C16", "src/parser.rs", "pub const MAX_LINE_OPERATORS: usize = 500;", "pub const MAX_LINE_OPERATORS: usize = 500_000;", "expression ladders overflow the stack again"),
+ ("C16-line-limit-huge", "C16", "src/parser.rs", "pub const MAX_LINE_OPERATORS: usize = 200;", "pub const MAX_LINE_OPERATORS: usize = 500_000;", "expression ladders overflow the stack again"),
  ("C16-macro-depth-huge", "C16", "src/builder/pass0.rs", "const MAX_MACRO_DEPTH: usize = 128;", "const MAX_MACRO_DEPTH: usize = 128_000_000;", "recursive macros run away again"),
  # ---- C17 independence
  ("C17-device-cache", "C17", "src/context.rs", "            device: Rc::new(RefCell::new(Some(Device::new(0)))),", "            device: Rc::new(RefCell::new(Some(LAST_DEVICE.with(|d| d.borrow().clone())))),", "context starts from a thread-local 'last device' cache"),
- ("C17-include-cache-by-name", "C17", "src/parser.rs", "    let mut source = String::new();\n    file.read_to_string(&mut source)?;", "    let mut source = String::new();\n    file.read_to_string(&mut source)?;\n    let cache_key = current_path.file_name().map(|n| n.to_string_lossy().to_string()).unwrap_or_default();\n    let source = INCLUDE_CACHE.with(|c| c.borrow_mut().entry(cache_key).or_insert(source).clone());", "included files cached per thread by file name"),
+ ("C17-include-cache-by-name", "C17", "src/parser.rs", "    let include_paths = RefCell::new(include_paths);\n\n    let file_context", "    let cache_key = current_path.file_name().map(|n| n.to_string_lossy().to_string()).unwrap_or_default();\n    let source = INCLUDE_CACHE.with(|c| c.borrow_mut().entry(cache_key).or_insert(source).clone());\n    let include_paths = RefCell::new(include_paths);\n\n    let file_context", "included files cached per thread by file name"),
  # ---- C18 CLI
  ("C18-write-failure-exit0", "C18", "src/app/main.rs", "                    Err(e) => {\n                        failed = true;\n                        println!(\n                            \"Failed to generate and write hex file {}, with error {}\",\n                            file_name, e\n                        )\n                    }\n                }\n            } else {\n                println!(\"Nothing to write of code", "                    Err(e) => {\n                        println!(\n                            \"Failed to generate and write hex file {}, with error {}\",\n                            file_name, e\n                        )\n                    }\n                }\n            } else {\n                println!(\"Nothing to write of code", "flash write failure no longer changes the exit status"),
  ("C18-stem-through-str", "C18", "src/app/main.rs", "            .file_stem()\n            .unwrap_or_default()\n            .to_os_string();", "            .file_stem()\n            .unwrap_or_default()\n            .to_str()\n            .map(std::ffi::OsString::from)\n            .unwrap_or_default();", "output names derived through &str again (non-UTF-8 stems collapse)"),
- ("C18-eep-name", "C18", "src/app/main.rs", "out_file_name += \".eep.hex\";", "out_file_name += \".eep\";", "default EEPROM file gets the wrong name"),
+ ("C18-eep-name", "C18", "src/app/main.rs", ".unwrap_or_else(|| default_output(\".eep.hex\"));", ".unwrap_or_else(|| default_output(\".eep\"));", "default EEPROM file gets the wrong name"),
+ ("C18-same-output-unchecked", "C18", "src/app/main.rs", "    a == b || (resolved(a).is_some() && resolved(a) == resolved(b))", "    let _ = (a, b, &resolved);\n    false", "-o and -e naming one file is not noticed again"),
 ]
 
 # the C17 mutant needs a second cooperating site
@@ -117,7 +118,6 @@ REVERTS = [
  ("R-include-directory", "C11", "a9de6e3", "directory shadows a file; read errors do not name the file"),
  ("R-device-two-operands", "C12", "e22c5cc", ".device A, B accepted"),
  ("R-org-before-switch", "C02", "9630515 63de58d", ".org directly followed by a segment switch is lost"),
- ("R-cli-same-output", "C18", "74ce6b5", "-o X -e X loses the flash image silently"),
  ("R-includepath-panic", "C16", "7410e14", "relative .includepath in a macro body panics"),
  ("R-cli-same-output-spelling", "C18", "ef3c1cb", "-o out.hex -e ./out.hex loses the flash image silently"),
 ]
